@@ -23,13 +23,14 @@ structure PrefInst where
   dataType : String
   orders : List (List (List Nat) × Nat)
 
-/-- the `data_type` string the converter insists on; the categorical converter checks nothing -/
+/-- the `data_type` string the converter insists on (all five converters check it; the categorical one
+rejects anything but `"cat"`) -/
 def PrefKind.expected : PrefKind → Option String
   | .soc => some "soc"
   | .soi => some "soi"
   | .toc => some "toc"
   | .toi => some "toi"
-  | .cat => none
+  | .cat => some "cat"
 
 /-- initial content of a row: `np.zeros(m, dtype=int)` for soc/toc, `np.full(m, np.nan)` otherwise -/
 def PrefKind.init : PrefKind → Option Nat
@@ -160,6 +161,7 @@ def exInst : PrefInst := { m := 4, dataType := "toi", orders := [([[2, 3], [1]],
 #eval convRows .toi .first exInst
 #eval convRows .toi (.random fun _ _ cls => cls.reverse) exInst
 #eval convRows .toc .first exInst
+#eval convRows .cat .first { exInst with dataType := "cat", orders := [([[2, 3], [], [1]], 2)] }
 #eval convRows .cat .first { exInst with orders := [([[2, 3], [], [1]], 2)] }
 #eval convRows .soi .first { exInst with dataType := "soi", orders := [([[2], [1]], 2), ([[4]], 1)] }
 #eval convRows .soc .first { exInst with dataType := "soc", orders := [([[2], [1]], 2)] }
